@@ -84,7 +84,8 @@ class ClaimsInterface:
         _always_add = add_claims_always.get(claims_release_point, [])
         if secondary_identifier:
             _always_2 = add_claims_always.get(secondary_identifier, [])
-            _always_add.extend(_always_2)
+            # build a new list: the client's registered list must not grow with every request
+            _always_add = _always_add + _always_2
 
         return _claims_by_scope, _always_add
 
